@@ -11,12 +11,15 @@ from . import genjudge
 ZONES = [-720, -300, 0, 60, 330, 345, 840]
 
 
+DUR_FMT = ["%d"]          # how the numbers of a duration are written (the spelling sweep writes leading zeros)
+
+
 def vblock(f=None, u=None, d=None):
     b = {}
     if f: b["from"] = "%04d-%02d-%02d" % tuple(f)
     if u: b["until"] = "%04d-%02d-%02d" % tuple(u)
     if d:
-        b["duration"] = "".join("%d%s" % (v, s) for v, s in zip(d, "ymd") if v is not None)
+        b["duration"] = "".join((DUR_FMT[0] % v) + s for v, s in zip(d, "ymd") if v is not None)
     return b
 
 
@@ -82,6 +85,13 @@ def cases(ctx):
             add((st, None, du), None, ZONES[(si + di) % 7], "duration from a leap day / end of month")
             if di < 3:
                 add(None, (st, None, du), ZONES[(si + di + 3) % 7], "profile duration from a leap day / end of month")
+    # the same durations written with leading zeros (decimal all the same): 08m, 010d, 0100d, 009y
+    for fmt in ("%02d", "%03d", "%04d"):
+        DUR_FMT[0] = fmt
+        for du in [(1, 6, 10), (None, 8, None), (5, None, 100), (None, 9, 12), (2, 10, 8), (9, None, None), (None, None, 18), (10, 11, 19)]:
+            add(((2030, 1, 1), None, du), None, ZONES[(du[0] or 0) % 7], "duration written with leading zeros")
+            add(((2031, 3, 15), None, None), (None, None, du), 60, "profile duration written with leading zeros")
+    DUR_FMT[0] = "%d"
     # own block x profile block: which one wins
     shapes = [None, (None, None, None), ((2030, 2, 3), None, None), (None, (2041, 5, 6), None), (None, None, (2, 3, 4)),
               ((2030, 2, 3), (2041, 5, 6), None), ((2030, 2, 3), None, (2, 3, 4))]
